@@ -507,7 +507,13 @@ struct Gen {
     return false;
   }
 
+  std::vector<Stmt> island;
   void MakeDyndeps() {
+    MakeDyndepsInner();
+    // ids must stay positions: the island statements come last, in the order they were numbered
+    for (auto& st : island) sc.stmts.push_back(st);
+  }
+  void MakeDyndepsInner() {
     int nd = (int)C(3);
     for (int d = 0; d < nd; d++) {
       std::vector<int> cands;
@@ -543,12 +549,39 @@ struct Gen {
           for (const Stmt& q : sc.stmts) if (q.id < cid && !q.regen) for (auto& o : q.outs) if (o != dd.path) pool.push_back(o);
           std::string p = pool[C((uint32_t)pool.size())];
           if (!s.oo_ins.empty() && C(3) == 0) p = s.oo_ins[C((uint32_t)s.oo_ins.size())];
+          // half of the time, when there is one: the output of a statement that itself waits for
+          // an order-only input someone has to build (the part of the graph only this dyndep
+          // information connects to the consumer)
+          std::vector<std::string> pool2;
+          for (const Stmt& q : sc.stmts) {
+            if (q.id >= cid || q.regen || q.phony) continue;
+            bool has = false;
+            for (auto& z : q.oo_ins) { int pz = sc.Producer(z); if (pz >= 0 && pz != q.id && !sc.stmts[pz].phony) has = true; }
+            if (has) for (auto& o : q.outs) if (o != dd.path) pool2.push_back(o);
+          }
+          if (!pool2.empty() && C(2) == 0) p = pool2[C((uint32_t)pool2.size())];
           if (p == "gen.src" || p == dd.path || sc.FindDyndep(p)) continue;
           bool dup = std::find(e.imp_ins.begin(), e.imp_ins.end(), p) != e.imp_ins.end();
           // (a file the manifest only orders before the statement may well turn out
           // to be a real input: order-only in the manifest, implicit in the dyndep file)
           for (auto* w : {&s.ins, &s.imp_ins}) if (std::find(w->begin(), w->end(), p) != w->end()) dup = true;
           if (!dup) e.imp_ins.push_back(p);
+        }
+        // one entry in three adds an "island": two statements that nothing else needs - the
+        // second waits (order-only) for the first - and the output of the second as an input.
+        // Only the dyndep information connects them to the consumer.
+        if (Has(F_ORDERONLY) && C(3) == 0 && sc.stmts.size() < 40) {
+          int base = (int)(sc.stmts.size() + island.size());
+          Stmt z; z.id = base; z.key = (int)C(50);
+          z.outs.push_back("isl" + std::to_string(base) + "z");
+          z.ins.push_back(sc.sources[C((uint32_t)sc.sources.size())]);
+          Stmt y; y.id = base + 1; y.key = (int)C(50);
+          y.outs.push_back("isl" + std::to_string(base) + "y");
+          y.ins.push_back(sc.sources[C((uint32_t)sc.sources.size())]);
+          y.oo_ins.push_back(z.outs[0]);
+          island.push_back(z); island.push_back(y);
+          e.imp_ins.push_back(y.outs[0]);
+          // (the reference to s stays valid: the island is appended after the loop)
         }
         if (C(3) == 0 && s.deps_kind < 2) { char ob[32]; snprintf(ob, sizeof ob, "o%dx", cid); e.imp_outs.push_back(ob); }
         e.restat = C(4) == 0;
